@@ -363,7 +363,12 @@ def write_evidence(pid, tier, seed, mine, myfailed, knownhits, violations, res, 
     if 'kani' in res:
         k = res['kani']
         cov['kani'] = dict(harnesses=k['n'], passed=k['n_ok'], wall_s=round(k['wall'], 1), per_harness=k['per'], covers=k.get('covers'))
-    ev = dict(property_id=pid, tier=tier, seed=seed, level=table.level(pid), coverage=cov,
+    lvl = table.level(pid)
+    if lvl != 'proof':
+        import claims
+        cov['explanation'] = ('Rows listed under coverage.rows were discharged by the verifiers on this run (obligations/discharged are counted from their '
+                              'outputs); the claim is below "proof" because: ' + (claims.CHECKS.get(pid, {}).get('text', '')))
+    ev = dict(property_id=pid, tier=tier, seed=seed, level=lvl, coverage=cov,
               assumptions=table.assumptions(pid), wall_s=round(wall, 1), violations=len(violations))
     os.makedirs(os.path.join(VERIF, 'evidence'), exist_ok=True)
     json.dump(ev, open(os.path.join(VERIF, 'evidence', pid + '.json'), 'w'), indent=1)
